@@ -31,6 +31,29 @@ CLAIMED = {
    text="Theorems (Qv/Props/C19.lean): the reference host-file model - read is short exactly at end of file, read-after-write, write extends with zero fill, punch keeps the length and reads zeros, the zero-write fallback is indistinguishable from a punch for every reader and differs only in length (fallback_equiv), fsync is the identity. Correspondence: Qcow2IoSync, Qcow2IoTokio, Qcow2IoUring over scratch files and the in-memory backend run the same request sequences (at/across/beyond EOF, zero-length, multi-MiB, O_DIRECT) and must agree line by line and in final (length, hash), and with the model; guest histories replayed on all backends give the same sweep.",
    ref="5.C19", tech="Lean 4 theorems on the host-file model + differential of the three real backends, the in-memory backend and the model",
    note="partial by nature: kernel / file-system behaviour underneath the real backends (tmpfs vs ext4 hole semantics, O_DIRECT acceptance) is observed in this sandbox, not proved"),
+ "C06": dict(
+   text="Theorems (Qv/Props/C06.lean): the per-block linearizability decision the check runs is exact for histories of any length - linearizable_iff (search = existence of a witness order), a witness is a permutation of the history (validOrder_perm), respects completion-before-start (validOrder_respects_realtime) and replays as a sequential register execution (validOrder_reads). Model of the mechanism the property names (Qv/Model/LruCache.lean = src/cache.rs method by method, Qv/Model/SliceProto.lean = the load / modify / evict / write-back protocol of add_cache_slice and flush_cache_entries; theorems in Qv/Props/C06Cache.lean when listed in evidence). Tie: the cache model runs in lock-step with the real AsyncLruCache; search: the real Qcow2Dev under a deterministic scheduler that owns every suspension point, every block's history judged by the Lean decision procedure, plus final content and flush+reopen content.",
+   ref="10.7", tech="Lean 4 theorems on the linearizability oracle and on the cache/slice protocol model + lock-step correspondence of the cache model + schedule search over the real code judged by the Lean oracle",
+   note="partial: a theorem cannot range over the Rust async runtime's interleavings; proved: the oracle and the protocol model; searched (sampled schedules, random and PCT-like): the real code. " + COMMON_NOTE),
+ "C07": dict(
+   text="Theorems (Qv/Props/C07.lean): on the lock-program model Qv.Spec.Lock - a system whose programs respect a rank discipline (a lock requested while another is held has higher rank, or equal rank with both in read mode) and release what they acquire never reaches a deadlock under any schedule (programs_never_deadlock), some blocked task is always blocked only by running tasks (blocked_has_unblocked_blocker), a non-deadlocked state with unfinished tasks can step (progress); the classic inversion is rejected and deadlocks. Allocator loops terminate with the model's fuel (C08). Search: the real Qcow2Dev under the deterministic scheduler - deadlock = unfinished tasks with nothing ready and nothing pending, livelock = step budget, any Err with valid arguments and a working backend = spurious.",
+   ref="10.7", tech="Lean 4 deadlock-freedom theorem for rank-disciplined lock programs + schedule search for deadlock / livelock / spurious errors on the real code",
+   note="partial: the lock programs of the real code paths were extracted by hand (notes/lock-programs-report.md) and are NOT machine-tied to the source; the tie to the code is the schedule search (sampled). " + COMMON_NOTE),
+ "C09": dict(
+   text="Theorems (Qv/Props/C09.lean): for every supported (size, cluster bits, refcount order, block size) the formatter model lays out header / refcount table / refcount block / L1 table disjointly and cluster aligned, counts exactly its own meta data, maps nothing, reads zeros everywhere, derives the specification's geometry (entries per table, L1 entries = ceil(size / bytes per L1 entry)) and satisfies the accounting invariant (format_layout, format_layout_disjoint, format_refcounts, format_mapping_empty, format_reads_zero, format_geometry, format_valid_model). Codec theorems: C15. Tie + oracle: images of the independent builder opened with default / custom / minimal parameters - get_mapping() of every guest cluster equals the independent Lean parser's reading, read_at sweep equals the builder's ground truth; the real formatter over a parameter grid judged by the Lean image checker.",
+   ref="10.8", tech="Lean 4 theorems on the formatter model and codecs + independent builder / Lean parser as specification oracle on the real code",
+   note=COMMON_NOTE + "; the builder, the Lean parser and inflate (miniz_oxide, harness side) are trusted as the specification; compressed plaintext is checked through read_at against the builder's tokens"),
+ "C14": dict(
+   text="Theorems (Qv/Props/C14.lean): for EVERY byte string the header parser model returns Ok or Err, never panics (parse_nopanic), does work bounded by the buffer (parse_fuel_irrelevant, parse_exts_bounded, parse_backing_bounded); an accepted header has magic, version 2/3, no encryption, refcount order <= 6, no compression type, no incompatible bits, 9 <= cluster bits <= 21, aligned tables, bounded table sizes (parse_ok_supported + one refuses_* theorem per rule); serialise-then-parse is the identity on supported headers with extensions and backing name (serialize_parse_roundtrip). Tie: byte-exact differential of from_buf / serialize_to_buf with the model on valid, mutated and random headers; search: corrupted images (header fields, table pointers, entries, refcounts) opened and used through the real code must not panic or hang.",
+   ref="5.C14", tech="Lean 4 totality and refusal theorems on the mirrored header parser + byte-level differential + malformed-image search on the real code", note=COMMON_NOTE + "; on corrupted tables (not headers) only panic / hang freedom is judged"),
+ "C17": dict(
+   text="Theorems (Qv/Spec/FlushRetry.lean, Qv/Props/C17.lean): abstract write-back cache with failing writes - a flush that reports Ok left nothing dirty and the disk holds every dirty value; what a failed flush leaves dirty was not written and nothing is lost (flushOnce_keeps_failed); once the backend works, repeating the flush converges in one attempt to the target disk whatever failed before (retry_converges); clearing the dirty mark before the write provably loses data (clear_before_write_loses: the defect found and repaired). Search on the real code: a failure injected at each individual backend request and at random subsets (incl. punch unsupported), the call must return Err without panic, the device stays usable, and after the backend recovers flush_meta() until Ok + reopen must give every acknowledged write and a file the Lean checker accepts up to leaks.",
+   ref="10.3", tech="Lean 4 theorems on the abstract flush-retry protocol + fault-injection search on the real code judged by the flat-disk oracle and the Lean image checker",
+   note=COMMON_NOTE + "; the tie between the abstract protocol and flush_cache_entries / flush_top_table is the fault search, not a proof"),
+ "C18": dict(
+   text="Theorems (Qv/Props/C18.lean): on the device model every state-changing function either sets need_flush or leaves L1, L2, refcount table and refcounts unchanged (FlagOrSame for the 30 functions of the write / allocate / discard paths; the two internal exceptions allocRange and mapRun are stated with their callers' compensation); hence for every history without flush the flag is set whenever the view differs from the last flushed view (needflush_seq, needflush_since_last_flush), flush does not change the view. Tie: the model's flag equals the real flag after every operation; oracle: whenever the real flag is false the file alone, read by a fresh device, must give the flat disk - sequentially after every operation and at the quiescent points of concurrent schedules (flush overlapping writers).",
+   ref="10.7", tech="Lean 4 invariant (flag-or-same) on the device model + correspondence of the flag + reopen oracle at every flag-false point, sequential and under the scheduler",
+   note=COMMON_NOTE + "; the flag is sampled only while no flush is running, as the property says"),
  "C08": dict(
    text="Theorems (Qv/Props/C08.lean, 41): for all refcount slices and device states - free-window search returns the FIRST all-zero window or none when none exists (sound, first, complete, fuel suffices), slice allocation hands out only refcount-0 clusters, contiguous, no longer than requested, sets them to 1 and changes nothing else; free decrements exactly once, never below zero (panics instead), lowers the hint to the freed cluster; alloc-then-free round trip; the allocator loops terminate with the model's fuel under every geometry. Tie: allocator choices of the real code (host offsets, hint, every refcount) equal the model's on write/discard/rewrite cycles; single-owner and refcount>=1 oracle on the RAM view after every operation.",
    ref="5.C08", tech="Lean 4 theorems on the mirrored allocator + correspondence of every allocation decision + ownership oracle", note=COMMON_NOTE + "; concurrent allocation (disjointness under interleaving) is covered by C06's schedule exploration, not by these theorems"),
@@ -58,7 +81,7 @@ m = {
    "guard": "qcow2_rs_verif",
    "enable": "RUSTFLAGS='--cfg qcow2_rs_verif' — set for the harness crate by /verif/harness/.cargo/config.toml; /verif/check rebuilds /verif/harness (path dependency on /repo) on every run",
    "baseline_off_cmd": "cd /repo && cargo test --workspace --no-fail-fast --offline",
-   "source_commits": ["9d28f34", "ae69cc1"],
+   "source_commits": ["9d28f34", "ae69cc1", "3568a70"],
    "add_only": True,
  },
  "engines": [
